@@ -40,6 +40,11 @@ CHECKS = {
          "stray end tags, nested removable elements, CDATA, JS/CSS text with markup, mixed case) are extracted as .html, .mhtml (3 transfer encodings), EPUB chapter and MSG body; every hidden token "
          "must be absent and every visible token present exactly once in order.",
          "Token-level oracle (non-token characters are not judged); EPUB gets only the well-formed-XML subset; unterminated comments inside removed elements are outside the grammar.", "DESIGN.md §4 C17"),
+ "C02": ("exploration", "model-based Hypothesis generation: abstract documents with unique class-tagged tokens rendered by independent writers to 17 formats; token-sequence oracle with known-finding attribution by neutralisation",
+         "Documents over paragraphs/runs/tabs/breaks/links/tracked changes/comments/notes/fields/content controls/headings/nested lists/tables (multi-paragraph, nested, empty cells)/text boxes/groups/"
+         "headers/footers/speaker notes are rendered to docx, pptx, odt, odp, odg, rtf, html, mhtml, epub, txt, md, csv, tsv, json, pdf, eml, mbox and extracted; every body token must occur exactly once, in order, "
+         "separated across boundaries, no excluded token, no alphanumeric residue. A failure is tolerated only if neutralising the feature of a listed known finding makes the document pass and the failing clause is the listed one.",
+         "Writers are the harness's own (self-checked for well-formedness) and part of the trusted base; only tokens are judged; xlsx/ods/xls/ppt legs are covered by C13/C03; visual reading order beyond the documented rule is not judged.", "DESIGN.md §4 C02"),
 }
 NOT_YET = {}
 
